@@ -114,6 +114,17 @@ TEXT = {
   "note": "Lean kernel; model/code correspondence sampled by this run's campaign (updates completing between launch start and success, several installs per run).",
   "technique": "Lean 4 theorem (inductive invariants over all histories) + differential correspondence check",
  },
+ "C13": {
+  "level": "Theorems: sites_covered (the translator's table of every expression of the production build that can panic by itself - 5 today - equals the table the model "
+           "covers, guards included); never_panics / stepP_ok (in the semantics that panics at exactly those sites under the Rust condition and poisons a held mutex, "
+           "no history of any calls with any inputs, stored state and oracle answers panics, and the mutexes stay unpoisoned); applyChannel_ok, artifactPath_utf8 / "
+           "pathToCString_ok (the two data-dependent sites); uninit_defaults and C13_holds (every call before a successful init returns its documented default and "
+           "touches nothing). The campaign runs the real library on malformed yaml / responses / downloads / state files and arbitrary call orders under a panic hook; "
+           "a panic that aborts the process is recovered from the crash journal as a shrunk replay.",
+  "design_ref": "DESIGN.md section 3, C13",
+  "note": "Lean kernel; partial: panics inside std/dependencies are outside the model (campaign evidence only).",
+  "technique": "Lean 4 theorem over a translator-generated site table + explicit panic semantics + differential campaign under a panic hook",
+ },
  "C09": {
   "level": "Theorem C09_holds: for every history whose effective inits configure one public key, the C09 monitor accepts the model trace - after an update "
            "reports n installed, n is the next-boot patch (installed_is_next, every disk); and once every record of number n matches the artifact in place, n stays "
